@@ -169,8 +169,11 @@ SaneRepl(r) == r = 0 \/ (r \in 0..127 /\ HtmlSafe(r))
 -----------------------------------------------------------------------------
 (* 4. Single-byte code pages.                                                *)
 CodePages ==
-  LET iso(u)  == [fam |-> "iso", undef |-> u]
-      win(u)  == [fam |-> "win", undef |-> u]
+  LET iso(u)  == [fam |-> "iso", undef |-> u, via |-> "table"]
+      win(u)  == [fam |-> "win", undef |-> u, via |-> "table"]
+      \* windows-1254 is not registered in validators_set: encoding::valid converts it with
+      \* iconv/ICU and validates the UTF-8 result, so the mechanism layer says nothing about it
+      conv(u) == [fam |-> "win", undef |-> u, via |-> "conv"]
       w1250 == {129, 131, 136, 144, 152}
       w1251 == {152}
       w1252 == {129, 141, 143, 144, 157}
@@ -192,13 +195,14 @@ CodePages ==
     iso88593 |-> iso(i3), iso88596 |-> iso(i6), iso88597 |-> iso(i7), iso88598 |-> iso(i8),
     iso885911 |-> iso(i11),
     windows1250 |-> win(w1250), windows1251 |-> win(w1251), windows1252 |-> win(w1252),
-    windows1253 |-> win(w1253), windows1254 |-> win(w1254), windows1255 |-> win(w1255),
+    windows1253 |-> win(w1253), windows1254 |-> conv(w1254), windows1255 |-> win(w1255),
     windows1256 |-> win(w1256), windows1257 |-> win(w1257), windows1258 |-> win(w1258),
     cp1250 |-> win(w1250), cp1251 |-> win(w1251), cp1252 |-> win(w1252), cp1253 |-> win(w1253),
-    cp1254 |-> win(w1254), cp1255 |-> win(w1255), cp1256 |-> win(w1256), cp1257 |-> win(w1257),
+    cp1254 |-> conv(w1254), cp1255 |-> win(w1255), cp1256 |-> win(w1256), cp1257 |-> win(w1257),
     cp1258 |-> win(w1258),
-    koi8r |-> [fam |-> "koi", undef |-> {}], koi8u |-> [fam |-> "koi", undef |-> {}],
-    ascii |-> [fam |-> "ascii", undef |-> 127..255], usascii |-> [fam |-> "ascii", undef |-> 127..255] ]
+    koi8r |-> [fam |-> "koi", undef |-> {}, via |-> "table"], koi8u |-> [fam |-> "koi", undef |-> {}, via |-> "table"],
+    ascii |-> [fam |-> "ascii", undef |-> 127..255, via |-> "table"],
+    usascii |-> [fam |-> "ascii", undef |-> 127..255, via |-> "table"] ]
 
 CPNames == DOMAIN CodePages
 
@@ -237,7 +241,21 @@ Reps(k) ==
     IF RepKind = "lohi" THEN {lo, hi}
     ELSE {lo, hi, (lo + hi) \div 2, Min(lo + 1, hi), IF hi - 1 < lo THEN lo ELSE hi - 1}
 AllReps == UNION { Reps(k) : k \in 1..NClass }
-LoOf(s) == [i \in 1..Len(s) |-> ClassLo[ClassOf(s[i])]]
+\* lower bound of the class of b, as a decision tree (StaticLaws: LoByte(b) = ClassLo[ClassOf(b)])
+LoByte(b) ==
+    IF b < 128 THEN
+        IF b < 14 THEN (IF b < 9 THEN 0 ELSE IF b < 11 THEN 9 ELSE IF b < 13 THEN 11 ELSE 13)
+        ELSE (IF b < 32 THEN 14 ELSE IF b < 127 THEN 32 ELSE 127)
+    ELSE IF b < 194 THEN (IF b < 144 THEN 128 ELSE IF b < 160 THEN 144 ELSE IF b < 192 THEN 160 ELSE 192)
+    ELSE IF b < 238 THEN (IF b < 195 THEN 194 ELSE IF b < 224 THEN 195 ELSE IF b < 225 THEN 224 ELSE IF b < 237 THEN 225 ELSE 237)
+    ELSE (IF b < 240 THEN 238 ELSE IF b < 241 THEN 240 ELSE IF b < 244 THEN 241 ELSE IF b < 245 THEN 244 ELSE 245)
+LoOf(s) == [i \in 1..Len(s) |-> LoByte(s[i])]
+
+\* the scalar value is affine in the bytes: weight of byte i of an n-byte character
+W(n, i) == CASE n - i = 0 -> 1 [] n - i = 1 -> 64 [] n - i = 2 -> 4096 [] n - i = 3 -> 262144
+Affine(s, lo, n) ==
+    LET D(i) == IF i <= n THEN (s[i] - lo[i]) * W(n, i) ELSE 0 IN
+    CPAt(s, 1, n) = CPAt(lo, 1, n) + D(1) + D(2) + D(3) + D(4)
 
 -----------------------------------------------------------------------------
 (* 6. Leg D: all sequences of <= 4 representative bytes.  A state holds the  *)
@@ -279,7 +297,7 @@ ClassInvariant ==
         LET n == LenAt(s, 1, h)
             lo == LoOf(s) IN
         /\ LenAt(lo, 1, h) = n
-        /\ (n > 0 => CPAt(lo, 1, n) <= CPAt(s, 1, n))
+        /\ (n > 0 => CPAt(lo, 1, n) <= CPAt(s, 1, n) /\ Affine(s, lo, n))
 
 \* whole-string validity and count on these short strings
 CountLaws ==
@@ -307,29 +325,35 @@ FilterLaws ==
         /\ Filter(f, r) = f
 
 \* all per-sequence laws in one pass (the named invariants above are used to name a failure)
-SeqLawsH(s, h) ==
-    LET n == LenAt(s, 1, h)
-        d == Dfa(s, h)
-        lo == LoOf(s)
-        c == Count(s, h) IN
-    /\ Cardinality(CharLens(s, 1, h)) <= 1
-    /\ (n > 0) = (CharLens(s, 1, h) # {})
+SeqLawsH(s, h, n, c, lo) ==
+    LET d == Dfa(s, h) IN
     /\ d.ok = (n > 0)
     /\ (d.ok => (d.n = n /\ d.cp = CPAt(s, 1, n)))
     /\ (d.inc => (~d.ok /\ d.n = Len(s)))
     /\ d.n <= Len(s)
     /\ LenAt(lo, 1, h) = n
-    /\ (n > 0 => CPAt(lo, 1, n) <= CPAt(s, 1, n))
     /\ (c >= 0 => c <= Len(s) /\ 4 * c >= Len(s))
-    /\ (h /\ c >= 0 => Count(s, FALSE) = c)
-    /\ (~h /\ IsChar(s) => c = 1)
 SeqLaws(s) ==
-    /\ SeqLawsH(s, FALSE)
-    /\ SeqLawsH(s, TRUE)
+    LET C  == CharLens(s, 1, FALSE)
+        nF == LenAt(s, 1, FALSE)
+        nT == LenAt(s, 1, TRUE)
+        cF == Count(s, FALSE)
+        cT == Count(s, TRUE)
+        lo == LoOf(s) IN
+    /\ Cardinality(C) <= 1
+    /\ (nF > 0) = (C # {})
+    /\ CharLens(s, 1, TRUE) = { n \in C : HtmlSafe(CPAt(s, 1, n)) }
+    /\ nT = (IF nF > 0 /\ HtmlSafe(CPAt(s, 1, nF)) THEN nF ELSE 0)
+    /\ SeqLawsH(s, FALSE, nF, cF, lo)
+    /\ SeqLawsH(s, TRUE, nT, cT, lo)
+    /\ (nF > 0 => CPAt(lo, 1, nF) <= CPAt(s, 1, nF) /\ Affine(s, lo, nF))
+    /\ (cT >= 0 => cF = cT)
+    /\ (nF = Len(s) /\ nF > 0 => cF = 1)
     /\ (Len(s) \in 1..4 => LET v == CPAt(s, 1, Len(s)) IN IsChar(s) = (Scalar(v) /\ Enc(v) = s))
-    /\ (\A n \in CharLens(s, 1, FALSE) : HtmlSafe(CPAt(s, 1, n)) = HtmlSafeAt(s, 1, n))
+    /\ (\A n \in C : HtmlSafe(CPAt(s, 1, n)) = HtmlSafeAt(s, 1, n))
 AllSeqLaws == \A s \in Here : SeqLaws(s)
 
 \* constant-level laws, evaluated once (in the initial state)
-StaticLaws == Len(p) = 0 => (ClassCongruence /\ CPTablesConform /\ FilterAlpha \subseteq AllReps)
+StaticLaws == Len(p) = 0 => (/\ ClassCongruence /\ CPTablesConform /\ FilterAlpha \subseteq AllReps
+                           /\ \A b \in Byte : LoByte(b) = ClassLo[ClassOf(b)])
 =============================================================================
